@@ -402,10 +402,10 @@ pub fn run(env: &Env) -> i32 {
     let base = work_dir("c17");
     let b2 = base.clone();
     let k = if env.is_thorough() { 6 } else { 3 };
-    rep.campaign("projects", env.cases(300, 4_000), (300, 1800), move |case| case_fn(case, &b2, k));
+    rep.campaign("projects", env.cases(800, 6_000), (300, 1800), move |case| case_fn(case, &b2, k));
     let _ = std::fs::remove_dir_all(&base);
     rep.shrink_iters = None;
     rep.note("campaign schema-verdict-order (in-process): valid schemas (25%) or schemas with one injected type-system fault (75%, the 25 C05 operators), split into definitions and extensions, three random permutations each (extension order per name kept) redistributed over 1-3 files: accept/reject must not change");
-    rep.campaign("schema-verdict-order", env.cases(6_000, 200_000), (200, 1500), schema_verdict_case);
+    rep.campaign("schema-verdict-order", env.cases(30_000, 400_000), (200, 1500), schema_verdict_case);
     rep.finish()
 }
